@@ -577,6 +577,17 @@ where
                 sponge,
                 None,
             )?;
+        // One proof per query point, each with one witness per variable
+        if proof.len() != combined_queries.len()
+            || proof.iter().any(|p| p.w.len() != vk.num_vars)
+        {
+            return Err(Error::IncorrectInputLength(ark_std::format!(
+                "Expected {:} proofs with {:} witnesses each. Instead, there are {:} proofs",
+                combined_queries.len(),
+                vk.num_vars,
+                proof.len()
+            )));
+        }
         let check_time =
             start_timer!(|| format!("Checking {} evaluation proofs", combined_comms.len()));
         let g = vk.g.into_group();
